@@ -87,9 +87,14 @@ Lemma builtins_in_modules E mods : in_modules E mods (PStr BUILTINS) = true.
 Proof. reflexivity. Qed.
 
 (* the ladder finds a class of the builtins module under every setting of the receiver switches *)
-Lemma resolve_builtin fR E mods n :
-  run_prog fR E mods (PStr BUILTINS) (PStr n) resolution_prog = Ok (assoc n (builtins_ns E)).
-Proof. unfold resolution_prog. cbn [run_prog eval_cond]. rewrite builtins_in_modules. destruct (inst_custom fR); reflexivity. Qed.
+Lemma find_module_builtins E mods : find_module E mods BUILTINS = Some (builtins_ns E).
+Proof. reflexivity. Qed.
+Lemma resolve_builtin M fR E mods n c ok : assoc n (builtins_ns E) = Some (AExc c ok) ->
+  run_prog M fR E mods (PStr BUILTINS) (PStr n) resolution_prog = Ok (Some (AExc c ok)).
+Proof.
+  intros H. unfold resolution_prog. cbn [run_prog eval_cond]. rewrite builtins_in_modules.
+  destruct (inst_custom fR); cbn [run_prog eval_src getattr_ns]; rewrite ?find_module_builtins, H; reflexivity.
+Qed.
 
 Lemma import_guard_builtins fR E : eval_cond fR E (modules E) (PStr BUILTINS) import_guard = false.
 Proof. unfold import_guard. cbn [eval_cond]. rewrite builtins_in_modules. apply andb_false_r. Qed.
@@ -115,11 +120,11 @@ Proof.
 Qed.
 
 (* 1. slow path: same built-in class, normalised args, public attributes + version, traceback field *)
-Theorem builtin_fidelity_slow P fS fR E ver tb e n :
+Theorem builtin_fidelity_slow M P fS fR E ver tb e n :
   e_cls e = Builtin n -> args_entries (e_dir e) = 1%nat ->
   assoc n (builtins_ns E) = Some (AExc (Builtin n) true) ->
   fast_taken P e = false ->
-  vload fR E (vdump P fS ver tb e) =
+  vload M fR E (vdump P fS ver tb e) =
     ([ENew (Real (Builtin n))],
      Ok (LExc (Real (Builtin n)) (PTuple (map norm (e_args e)))
               (map set_of (public_attrs (e_dir e) ++ [version_attr fS ver]))
@@ -128,7 +133,7 @@ Proof.
   intros HC HA HB HF. rewrite (vdump_slow _ _ _ _ _ HF HA), HC. cbn [cls_key fst snd]. unfold record, vload.
   cbn [py_eq_one]. change (unpack 4 (PTuple ?l)) with (Ok l : result (list pyval)) at 1. cbv beta iota.
   change (unpack 2 (PTuple [PStr BUILTINS; PStr n])) with (Ok [PStr BUILTINS; PStr n] : result (list pyval)). cbv beta iota.
-  rewrite import_guard_builtins. cbv beta iota zeta. rewrite resolve_builtin, HB.
+  rewrite import_guard_builtins. cbv beta iota zeta. rewrite (resolve_builtin M fR E _ n _ _ HB).
   now rewrite build_genuine.
 Qed.
 
@@ -148,20 +153,20 @@ Proof.
   intros HP. rewrite HP in H2. cbn in H2. now destruct (e_args e).
 Qed.
 
-Lemma vload_one fR E : vload fR E (PInt EXC_STOP) = ([], Ok LStop).
+Lemma vload_one M fR E : vload M fR E (PInt EXC_STOP) = ([], Ok LStop).
 Proof. reflexivity. Qed.
 
 (* 1'. on a tree whose fast path is guarded by "no args": class and args of every built-in arrive intact *)
-Theorem builtin_class_args_preserved P fS fR E ver tb e n :
+Theorem builtin_class_args_preserved M P fS fR E ver tb e n :
   fast_noargs_only P = true ->
   e_cls e = Builtin n -> args_entries (e_dir e) = 1%nat ->
   assoc n (builtins_ns E) = Some (AExc (Builtin n) true) ->
-  arrived (vload fR E (vdump P fS ver tb e)) = Some (Builtin n, PTuple (map norm (e_args e))).
+  arrived (vload M fR E (vdump P fS ver tb e)) = Some (Builtin n, PTuple (map norm (e_args e))).
 Proof.
   intros HP HC HA HB. destruct (fast_taken P e) eqn:HF.
   - destruct (fast_taken_inv _ _ HF) as [HS HN]. specialize (HN HP). unfold vdump. rewrite HF, vload_one.
     rewrite HC in HS. injection HS as ->. now rewrite HN.
-  - now rewrite (builtin_fidelity_slow P fS fR E ver tb e n HC HA HB HF).
+  - now rewrite (builtin_fidelity_slow M P fS fR E ver tb e n HC HA HB HF).
 Qed.
 
 (* 1''. on a tree whose fast path is unconditional the arguments of StopIteration are lost (finding F9) *)
@@ -169,10 +174,10 @@ Definition stop_x : exc :=
   {| e_cls := Builtin STOP_ITERATION;
      e_args := [{| o_val := PStr (txt "x"); o_repr := txt "'x'" |}];
      e_dir := [(ARGS, None); (txt "value", Some {| o_val := PStr (txt "x"); o_repr := txt "'x'" |})] |}.
-Theorem builtin_fidelity_refuted P fS fR E ver tb : fast_noargs_only P = false ->
+Theorem builtin_fidelity_refuted M P fS fR E ver tb : fast_noargs_only P = false ->
   args_entries (e_dir stop_x) = 1%nat /\ routed fS (e_cls stop_x) = false /\
   map norm (e_args stop_x) = [PStr (txt "x")] /\
-  arrived (vload fR E (vdump P fS ver tb stop_x)) = Some (Builtin STOP_ITERATION, PTuple []).
+  arrived (vload M fR E (vdump P fS ver tb stop_x)) = Some (Builtin STOP_ITERATION, PTuple []).
 Proof.
   intros HP. repeat split.
   unfold vdump, fast_taken. rewrite HP. cbn [stop_x e_cls is_builtin_named]. rewrite text_eqb_refl. cbn [andb negb orb].
@@ -185,80 +190,109 @@ Definition present (fR : rflags) (E : env) (m : text) : option ns :=
   | Some x => Some x
   | None => if import_custom fR then assoc m (importable E) else None
   end.
-Definition expected_class (fR : rflags) (E : env) (m n : text) : rcls * bool :=
+(* what reading a module attribute yields: the imports a module-level __getattr__ hook performs (only when [hooks]: the
+   lookup consults it) and the exception class found, if any *)
+Definition settle (hooks : bool) (k : option attr_kind) : list text * option (clsid * bool) :=
+  match k with
+  | Some (AExc c ok) => ([], Some (c, ok))
+  | Some (ALazy imps found) => if hooks then (imps, found) else ([], None)
+  | _ => ([], None)
+  end.
+Definition lookup_custom (M : lookup_mode) (fR : rflags) (E : env) (m n : text) : list text * option (clsid * bool) :=
   if inst_custom fR then
     match present fR E m with
-    | Some x => match assoc n x with Some (AExc c ok) => (Real c, ok) | _ => (Generic (PStr m) (PStr n), true) end
-    | None => (Generic (PStr m) (PStr n), true)
+    | Some x => settle (hooks_run M fR) (assoc n x)
+    | None => ([], None)
     end
-  else (Generic (PStr m) (PStr n), true).
-Definition import_effects (fR : rflags) (E : env) (m : text) : list effect :=
+  else ([], None).
+Definition expected_class (M : lookup_mode) (fR : rflags) (E : env) (m n : text) : rcls * bool :=
+  match snd (lookup_custom M fR E m n) with
+  | Some (c, ok) => (Real c, ok)
+  | None => (Generic (PStr m) (PStr n), true)
+  end.
+Definition guard_import (fR : rflags) (E : env) (m : text) : list effect :=
   if import_custom fR then match assoc m (modules E) with None => [EImport m] | Some _ => [] end else [].
+Definition import_effects (M : lookup_mode) (fR : rflags) (E : env) (m n : text) : list effect :=
+  guard_import fR E m ++ map EImport (fst (lookup_custom M fR E m n)).
 
 Lemma find_module_custom E mods m : text_eqb m BUILTINS = false -> find_module E mods m = assoc m mods.
 Proof. intros H. unfold find_module. now rewrite H. Qed.
 
-Lemma custom_resolution fR E m n : text_eqb m BUILTINS = false ->
+Lemma settle_visible h k : settle true (visible h k) = settle h k.
+Proof. destruct k as [[c ok| |imps f]|]; try reflexivity. cbn. destruct h; reflexivity. Qed.
+
+Lemma custom_resolution M fR E m n : text_eqb m BUILTINS = false ->
   let imp := eval_cond fR E (modules E) (PStr m) import_guard in
-  (if imp then [EImport m] else []) = import_effects fR E m /\
-  match run_prog fR E (if imp then after_import E (PStr m) else modules E) (PStr m) (PStr n) resolution_prog with
-  | Ok (Some (AExc c ok)) => expected_class fR E m n = (Real c, ok)
-  | Ok _ => expected_class fR E m n = (Generic (PStr m) (PStr n), true)
+  (if imp then [EImport m] else []) = guard_import fR E m /\
+  match run_prog M fR E (if imp then after_import E (PStr m) else modules E) (PStr m) (PStr n) resolution_prog with
+  | Ok k => lookup_custom M fR E m n = settle true k
   | _ => False
   end.
 Proof.
-  intros HM. cbv zeta. unfold import_guard, import_effects, expected_class, present, resolution_prog.
+  intros HM. cbv zeta. unfold import_guard, guard_import, lookup_custom, present, resolution_prog.
   cbn [eval_cond run_prog in_modules eval_src getattr_ns after_import]. rewrite !(find_module_custom _ _ _ HM), HM.
-  destruct (import_custom fR), (inst_custom fR); cbn [andb negb].
+  destruct (import_custom fR) eqn:EIC, (inst_custom fR); cbn [andb negb].
   - destruct (assoc m (modules E)) as [x|] eqn:EM; cbn [negb].
-    + split; [reflexivity|]. rewrite EM.
-      destruct (assoc n x) as [[c ok|]|]; reflexivity.
+    + split; [reflexivity|]. rewrite EM. now rewrite settle_visible.
     + split; [reflexivity|]. destruct (assoc m (importable E)) as [y|] eqn:EI.
-      * cbn [assoc]. rewrite text_eqb_refl.
-        destruct (assoc n y) as [[c ok|]|]; reflexivity.
+      * cbn [assoc]. rewrite text_eqb_refl. now rewrite settle_visible.
       * rewrite EM. reflexivity.
   - destruct (assoc m (modules E)); cbn [negb]; split; reflexivity.
-  - split; [reflexivity|]. 
-    destruct (assoc m (modules E)) as [x|]; [|reflexivity]. destruct (assoc n x) as [[c ok|]|]; reflexivity.
+  - split; [reflexivity|].
+    destruct (assoc m (modules E)) as [x|]; [|reflexivity]. now rewrite settle_visible.
   - split; reflexivity.
 Qed.
 
 Definition name_ok (m n : text) : Prop := generic_name_check (PStr m) (PStr n) = Ok tt.
 
 (* a genuine record of a class outside builtins: real class exactly when the receiver's switches and its
-   modules allow it, a generic stand-in named "m.n" otherwise; imports only under import_custom *)
-Theorem custom_gating fR E m n args l fS ver tb :
-  text_eqb m BUILTINS = false -> name_ok m n -> snd (expected_class fR E m n) = true ->
-  vload fR E (record m n args (l ++ [version_attr fS ver]) (tb_field fS tb)) =
-    (import_effects fR E m ++ [ENew (fst (expected_class fR E m n))],
-     Ok (LExc (fst (expected_class fR E m n)) (PTuple args) (map set_of (l ++ [version_attr fS ver]))
+   modules allow it, a generic stand-in named "m.n" otherwise; the effects are the guarded import, then whatever
+   a module-level __getattr__ hook imports when the lookup consults it, then one __new__ *)
+Theorem custom_gating M fR E m n args l fS ver tb :
+  text_eqb m BUILTINS = false -> name_ok m n -> snd (expected_class M fR E m n) = true ->
+  vload M fR E (record m n args (l ++ [version_attr fS ver]) (tb_field fS tb)) =
+    (import_effects M fR E m n ++ [ENew (fst (expected_class M fR E m n))],
+     Ok (LExc (fst (expected_class M fR E m n)) (PTuple args) (map set_of (l ++ [version_attr fS ver]))
               (Done (tb_field fS tb) (version_warn fS E ver)))).
 Proof.
   intros HM HN HK. unfold record, vload. cbn [py_eq_one].
   change (unpack 4 (PTuple ?l)) with (Ok l : result (list pyval)) at 1. cbv beta iota.
   change (unpack 2 (PTuple [PStr m; PStr n])) with (Ok [PStr m; PStr n] : result (list pyval)). cbv beta iota.
-  pose proof (custom_resolution fR E m n HM) as HR. cbv zeta in HR. destruct HR as [HI HR]. cbv zeta. rewrite HI.
-  destruct (run_prog _ _ _ _ _ _) as [[[c ok|]|]| | |]; try contradiction; rewrite HR in *; cbn [fst snd] in *.
+  pose proof (custom_resolution M fR E m n HM) as HR. cbv zeta in HR. destruct HR as [HI HR]. cbv zeta. rewrite HI.
+  unfold import_effects, expected_class in *. unfold generic_or_fail.
+  destruct (run_prog _ _ _ _ _ _ _) as [[[c ok| |imps [[c ok]|]]|]| | |]; try contradiction; rewrite HR in *; cbn [settle fst snd map] in *;
+    rewrite ?app_nil_r.
+  - subst ok. apply build_genuine.
+  - rewrite HN. apply build_genuine.
   - subst ok. apply build_genuine.
   - rewrite HN. apply build_genuine.
   - rewrite HN. apply build_genuine.
 Qed.
 
-Theorem custom_real_iff fR E m n c : text_eqb m BUILTINS = false ->
-  fst (expected_class fR E m n) = Real c <->
+Theorem custom_real_iff M fR E m n c : text_eqb m BUILTINS = false ->
+  fst (expected_class M fR E m n) = Real c <->
   inst_custom fR = true /\
   exists x, (assoc m (modules E) = Some x \/ (assoc m (modules E) = None /\ import_custom fR = true /\ assoc m (importable E) = Some x))
-            /\ exists ok, assoc n x = Some (AExc c ok).
+            /\ exists ok, assoc n x = Some (AExc c ok) \/
+                          (hooks_run M fR = true /\ exists imps, assoc n x = Some (ALazy imps (Some (c, ok)))).
 Proof.
-  intros HM. unfold expected_class, present. split.
+  intros HM. unfold expected_class, lookup_custom, present. split.
   - destruct (inst_custom fR); [|discriminate]. intros H. split; [reflexivity|].
+    assert (HS : forall x, fst match snd (settle (hooks_run M fR) (assoc n x)) with
+                               | Some (c0, ok) => (Real c0, ok) | None => (Generic (PStr m) (PStr n), true) end = Real c ->
+                 exists ok, assoc n x = Some (AExc c ok) \/ (hooks_run M fR = true /\ exists imps, assoc n x = Some (ALazy imps (Some (c, ok))))).
+    { intros x. destruct (assoc n x) as [[c' ok| |imps [[c' ok]|]]|]; cbn [settle snd fst]; try discriminate.
+      - intros [= ->]. exists ok. now left.
+      - destruct (hooks_run M fR); cbn [snd fst]; [|discriminate]. intros [= ->]. exists ok. right. split; [reflexivity|]. now exists imps.
+      - destruct (hooks_run M fR); discriminate. }
     destruct (assoc m (modules E)) as [x|] eqn:EM.
-    + exists x. split; [now left|]. destruct (assoc n x) as [[c' ok|]|]; try discriminate. injection H as ->. now exists ok.
+    + exists x. split; [now left|]. now apply HS.
     + destruct (import_custom fR); [|discriminate]. destruct (assoc m (importable E)) as [y|] eqn:EI; [|discriminate].
-      exists y. split; [right; auto|]. destruct (assoc n y) as [[c' ok|]|]; try discriminate. injection H as ->. now exists ok.
-  - intros (HI & x & [HX|(HX & HC & HY)] & ok & HA); rewrite HI, HX.
-    + now rewrite HA.
-    + now rewrite HC, HY, HA.
+      exists y. split; [right; auto|]. now apply HS.
+  - intros (HI & x & HX & ok & HA). rewrite HI.
+    assert (HP : match assoc m (modules E) with Some x0 => Some x0 | None => if import_custom fR then assoc m (importable E) else None end = Some x).
+    { destruct HX as [HX|(HX & HC & HY)]; rewrite HX; [reflexivity|]. now rewrite HC. }
+    rewrite HP. destruct HA as [HA|(HH & imps & HA)]; rewrite HA; cbn [settle]; [reflexivity|]. now rewrite HH.
 Qed.
 
 (* ---- 3. safety for every payload ---- *)
@@ -268,33 +302,78 @@ Proof.
   destruct (iter_elems true t) as [items| | |]; try (eexists; reflexivity).
   destruct (do_sets items) as [s [u|x| |]]; eexists; reflexivity.
 Qed.
+Lemma generic_effects E eff m n a t b :
+  fst (generic_or_fail E eff m n a t b) = eff \/ fst (generic_or_fail E eff m n a t b) = eff ++ [ENew (Generic m n)].
+Proof.
+  unfold generic_or_fail. destruct (generic_name_check m n); try (now left).
+  right. destruct (build_effects E eff (Generic m n) true a t b) as [r ->]. reflexivity.
+Qed.
 
 Definition import_part (fR : rflags) (E : env) (modname : pyval) : list effect :=
   if eval_cond fR E (modules E) modname import_guard then match modname with PStr m => [EImport m] | _ => [] end else [].
 
-(* every effect list of the loader: nothing, or the guarded import followed by at most one __new__ of
-   either a class the ladder found or a generic stand-in *)
-Lemma vload_effects fR E v :
-  fst (vload fR E v) = [] \/
-  exists modname clsname,
-    let mods := if eval_cond fR E (modules E) modname import_guard then after_import E modname else modules E in
-    fst (vload fR E v) = import_part fR E modname \/
-    (exists c ok, run_prog fR E mods modname clsname resolution_prog = Ok (Some (AExc c ok)) /\
-                  fst (vload fR E v) = import_part fR E modname ++ [ENew (Real c)]) \/
-    fst (vload fR E v) = import_part fR E modname ++ [ENew (Generic modname clsname)].
+(* where a class / a hook result of the ladder can come from *)
+Lemma run_prog_lazy M fR E mods modname clsname imps f :
+  run_prog M fR E mods modname clsname resolution_prog = Ok (Some (ALazy imps f)) ->
+  hooks_run M fR = true /\ inst_custom fR = true.
+Proof.
+  unfold resolution_prog. cbn [run_prog eval_cond]. destruct (inst_custom fR).
+  - destruct (in_modules E mods modname); [|discriminate]. cbn [run_prog eval_src getattr_ns].
+    destruct (hooks_run M fR); [auto|]. destruct clsname; cbn [getattr_ns]; try discriminate.
+    destruct (match modname with PStr m => find_module E mods m | _ => None end) as [x|]; [|discriminate].
+    destruct (assoc cps x) as [[| |]|]; cbn [visible]; discriminate.
+  - destruct (match modname with PStr m => text_eqb m BUILTINS | _ => false end); [|discriminate].
+    cbn [run_prog eval_src getattr_ns]. destruct clsname; cbn [getattr_ns]; try discriminate.
+    destruct (assoc cps (builtins_ns E)) as [[| |]|]; cbn [visible]; discriminate.
+Qed.
+Lemma run_prog_noinst M fR E mods modname clsname c ok : inst_custom fR = false ->
+  run_prog M fR E mods modname clsname resolution_prog = Ok (Some (AExc c ok)) ->
+  exists n, assoc n (builtins_ns E) = Some (AExc c ok).
+Proof.
+  intros HI. unfold resolution_prog. cbn [run_prog eval_cond]. rewrite HI.
+  destruct (match modname with PStr m => text_eqb m BUILTINS | _ => false end); [|discriminate].
+  cbn [run_prog eval_src getattr_ns]. destruct clsname; cbn [getattr_ns]; try discriminate.
+  destruct (assoc cps (builtins_ns E)) as [[c' ok'| |]|] eqn:EA; cbn [visible]; try discriminate. intros [= -> ->]. now exists cps.
+Qed.
+
+(* every effect list of the loader: nothing, or the guarded import, then the imports of a consulted module hook, then at
+   most one __new__ of either a class the ladder (or the hook) produced or a generic stand-in *)
+Inductive tail_ok (M : lookup_mode) (fR : rflags) (E : env) (modname clsname : pyval) (hook : list text) : list effect -> Prop :=
+| TNone : tail_ok M fR E modname clsname hook []
+| TGeneric : tail_ok M fR E modname clsname hook [ENew (Generic modname clsname)]
+| TReal c ok mods : hook = [] -> run_prog M fR E mods modname clsname resolution_prog = Ok (Some (AExc c ok)) ->
+    tail_ok M fR E modname clsname hook [ENew (Real c)]
+| THook c : hooks_run M fR = true -> inst_custom fR = true -> tail_ok M fR E modname clsname hook [ENew (Real c)].
+
+Lemma vload_effects M fR E v :
+  fst (vload M fR E v) = [] \/
+  exists modname clsname hook tail,
+    fst (vload M fR E v) = import_part fR E modname ++ map EImport hook ++ tail /\
+    (hook = [] \/ (hooks_run M fR = true /\ inst_custom fR = true)) /\
+    tail_ok M fR E modname clsname hook tail.
 Proof.
   unfold vload. destruct (py_eq_one v); [now left|].
   destruct v; try (now left);
   (destruct (unpack 4 _) as [[|key [|args [|attrs [|tb [|? ?]]]]]| | |]; try (now left);
    destruct (unpack 2 key) as [[|modname [|clsname [|? ?]]]| | |]; try (now left);
    right; exists modname, clsname; cbv zeta; fold (import_part fR E modname);
-   destruct (run_prog _ _ _ _ _ _) as [[[c ok|]|]| | |] eqn:ER; try (now left);
-   [ right; left; exists c, ok; split; [reflexivity|];
-     destruct (build_effects E (import_part fR E modname) (Real c) ok args attrs tb) as [r ->]; reflexivity
-   | destruct (generic_name_check modname clsname); try (now left);
-     right; right; destruct (build_effects E (import_part fR E modname) (Generic modname clsname) true args attrs tb) as [r ->]; reflexivity
-   | destruct (generic_name_check modname clsname); try (now left);
-     right; right; destruct (build_effects E (import_part fR E modname) (Generic modname clsname) true args attrs tb) as [r ->]; reflexivity ]).
+   destruct (run_prog _ _ _ _ _ _ _) as [[[c ok| |imps [[c ok]|]]|]| | |] eqn:ER;
+   [ exists [], [ENew (Real c)]; destruct (build_effects E (import_part fR E modname) (Real c) ok args attrs tb) as [r ->];
+     split; [reflexivity|split; [now left|eapply TReal; [reflexivity|exact ER]]]
+   | destruct (generic_effects E (import_part fR E modname) modname clsname args attrs tb) as [-> | ->];
+     [exists [], []|exists [], [ENew (Generic modname clsname)]]; (split; [now rewrite ?app_nil_r|split; [now left|constructor]])
+   | destruct (run_prog_lazy _ _ _ _ _ _ _ _ ER) as [HH HI];
+     exists imps, [ENew (Real c)]; destruct (build_effects E (import_part fR E modname ++ map EImport imps) (Real c) ok args attrs tb) as [r ->];
+     split; [cbn [fst]; now rewrite <- !app_assoc|split; [now right|now apply THook]]
+   | destruct (run_prog_lazy _ _ _ _ _ _ _ _ ER) as [HH HI];
+     destruct (generic_effects E (import_part fR E modname ++ map EImport imps) modname clsname args attrs tb) as [-> | ->];
+     [exists imps, []|exists imps, [ENew (Generic modname clsname)]];
+     (split; [now rewrite <- ?app_assoc, ?app_nil_r|split; [now right|constructor]])
+   | destruct (generic_effects E (import_part fR E modname) modname clsname args attrs tb) as [-> | ->];
+     [exists [], []|exists [], [ENew (Generic modname clsname)]]; (split; [now rewrite ?app_nil_r|split; [now left|constructor]])
+   | exists [], []; split; [now rewrite app_nil_r|split; [now left|constructor]]
+   | exists [], []; split; [now rewrite app_nil_r|split; [now left|constructor]]
+   | exists [], []; split; [now rewrite app_nil_r|split; [now left|constructor]] ]).
 Qed.
 
 Lemma import_part_off fR E modname : import_custom fR = false -> import_part fR E modname = [].
@@ -308,44 +387,84 @@ Proof.
   destruct modname; try contradiction. intros [<-|[]]. eexists; repeat split.
 Qed.
 
-Theorem no_import_unless_allowed fR E v m : In (EImport m) (fst (vload fR E v)) ->
-  import_custom fR = true /\ in_modules E (modules E) (PStr m) = false.
+Lemma tail_no_import M fR E modname clsname hook tail x : tail_ok M fR E modname clsname hook tail -> In x tail ->
+  exists rc, x = ENew rc.
+Proof. intros H. destruct H; intros HI; try contradiction; destruct HI as [<-|[]]; eexists; reflexivity. Qed.
+
+(* an import happens only through the guarded __import__ (import_custom on, module not loaded) or inside a module hook the
+   sys.modules lookup consulted (which needs instantiate_custom) *)
+Theorem import_only_two_ways M fR E v m : In (EImport m) (fst (vload M fR E v)) ->
+  (import_custom fR = true /\ in_modules E (modules E) (PStr m) = false) \/ (hooks_run M fR = true /\ inst_custom fR = true).
 Proof.
-  destruct (vload_effects fR E v) as [->|(modname & clsname & H)]; [contradiction|]. cbv zeta in H.
-  assert (HP : In (EImport m) (import_part fR E modname) -> import_custom fR = true /\ in_modules E (modules E) (PStr m) = false).
-  { intros HI. apply import_part_shape in HI as (m' & [= <-] & -> & A & B). now split. }
-  destruct H as [->|[(c & ok & _ & ->)| ->]]; [exact HP| |]; intros HI; apply in_app_or in HI as [HI|[HI|[]]]; try discriminate; auto.
+  destruct (vload_effects M fR E v) as [->|(modname & clsname & hook & tail & -> & HH & HT)]; [contradiction|].
+  intros HI. apply in_app_or in HI as [HI|HI].
+  - left. apply import_part_shape in HI as (m' & [= <-] & -> & A & B). now split.
+  - apply in_app_or in HI as [HI|HI].
+    + destruct HH as [->|HH]; [contradiction|now right].
+    + destruct (tail_no_import _ _ _ _ _ _ _ _ HT HI) as [rc Hrc]. discriminate.
 Qed.
 
-Theorem never_init fR E v c : ~ In (EInit c) (fst (vload fR E v)).
+(* the generated guard: the lookup consults module hooks only when importing is allowed *)
+Definition mode_safe (M : lookup_mode) : bool := match M with LkGetattr => false | _ => true end.
+Lemma mode_safe_hooks M fR : mode_safe M = true -> hooks_run M fR = true -> import_custom fR = true.
+Proof. destruct M; cbn; try discriminate; auto. Qed.
+
+Theorem no_import_unless_allowed M fR E v m : mode_safe M = true -> In (EImport m) (fst (vload M fR E v)) ->
+  import_custom fR = true.
 Proof.
-  destruct (vload_effects fR E v) as [->|(modname & clsname & H)]; [easy|]. cbv zeta in H.
-  assert (HP : ~ In (EInit c) (import_part fR E modname)).
-  { intros HI. apply import_part_shape in HI as (m' & HI & _). discriminate. }
-  destruct H as [->|[(c' & ok & _ & ->)| ->]]; [exact HP| |]; intros HI; apply in_app_or in HI as [HI|[HI|[]]]; try discriminate; auto.
+  intros HM HI. apply import_only_two_ways in HI as [[H _]|[H _]]; [exact H|]. exact (mode_safe_hooks M fR HM H).
+Qed.
+
+(* on a tree that reads the class with getattr(module, name, None): a payload naming an attribute that a loaded module
+   serves through __getattr__ makes the receiver import although import_custom is off *)
+Definition hook_env : env :=
+  {| builtins_ns := []; modules := [(txt "lazymod", [(txt "Thing", ALazy [txt "heavy.dependency"] None)])];
+     importable := []; local_major := txt "5" |}.
+Definition hook_payload : pyval :=
+  PTuple [PTuple [PStr (txt "lazymod"); PStr (txt "Thing")]; PTuple []; PTuple []; PStr (txt "tb")].
+Theorem no_import_refuted : exists fR E v m,
+  import_custom fR = false /\ inst_custom fR = true /\ In (EImport m) (fst (vload LkGetattr fR E v)) /\
+  ~ In (EImport m) (fst (vload LkDictUnlessImport fR E v)).
+Proof.
+  exists {| import_custom := false; inst_custom := true; inst_oldstyle := false |}, hook_env, hook_payload, (txt "heavy.dependency").
+  split; [reflexivity|]. split; [reflexivity|]. split; vm_compute; [now left|]. intros [H|[]]. discriminate.
+Qed.
+
+Theorem never_init M fR E v c : ~ In (EInit c) (fst (vload M fR E v)).
+Proof.
+  destruct (vload_effects M fR E v) as [->|(modname & clsname & hook & tail & -> & HH & HT)]; [easy|].
+  intros HI. apply in_app_or in HI as [HI|HI].
+  - apply import_part_shape in HI as (m' & HI & _). discriminate.
+  - apply in_app_or in HI as [HI|HI].
+    + apply in_map_iff in HI as (? & ? & _). discriminate.
+    + destruct (tail_no_import _ _ _ _ _ _ _ _ HT HI) as [rc Hrc]. discriminate.
 Qed.
 
 (* with instantiate_custom off the only real classes ever instantiated come from the builtins namespace *)
-Theorem new_only_builtin fR E v c : inst_custom fR = false -> In (ENew (Real c)) (fst (vload fR E v)) ->
+Theorem new_only_builtin M fR E v c : inst_custom fR = false -> In (ENew (Real c)) (fst (vload M fR E v)) ->
   exists n ok, assoc n (builtins_ns E) = Some (AExc c ok).
 Proof.
-  intros HI. destruct (vload_effects fR E v) as [->|(modname & clsname & H)]; [contradiction|]. cbv zeta in H.
-  assert (HP : ~ In (ENew (Real c)) (import_part fR E modname)).
-  { intros HX. apply import_part_shape in HX as (m' & HX & _). discriminate. }
-  destruct H as [->|[(c' & ok & HR & ->)| ->]]; intros HN; try (apply in_app_or in HN as [HN|[HN|[]]]); try contradiction; try discriminate.
-  injection HN as ->. revert HR. unfold resolution_prog. cbn [run_prog eval_cond]. rewrite HI.
-  destruct modname; try discriminate. destruct (text_eqb cps BUILTINS); [|discriminate].
-  cbn [eval_src getattr_ns]. destruct clsname; try discriminate. intros [= HR]. now exists cps0, ok.
+  intros HI. destruct (vload_effects M fR E v) as [->|(modname & clsname & hook & tail & -> & HH & HT)]; [contradiction|].
+  intros HN. apply in_app_or in HN as [HN|HN].
+  { apply import_part_shape in HN as (m' & HN & _). discriminate. }
+  apply in_app_or in HN as [HN|HN].
+  { apply in_map_iff in HN as (? & ? & _). discriminate. }
+  destruct HT as [| |c' ok mods Hh HR|c' Hhooks Hinst]; try contradiction.
+  - destruct HN as [HN|[]]. discriminate.
+  - destruct HN as [[= ->]|[]]. destruct (run_prog_noinst _ _ _ _ _ _ _ _ HI HR) as [n Hn]. now exists n, ok.
+  - rewrite HI in Hinst. discriminate.
 Qed.
 
 (* at most one object is ever created *)
-Theorem at_most_one_new fR E v :
-  (List.length (filter (fun x => match x with ENew _ => true | _ => false end) (fst (vload fR E v))) <= 1)%nat.
+Theorem at_most_one_new M fR E v :
+  (List.length (filter (fun x => match x with ENew _ => true | _ => false end) (fst (vload M fR E v))) <= 1)%nat.
 Proof.
   assert (HP : forall modname, filter (fun x => match x with ENew _ => true | _ => false end) (import_part fR E modname) = []).
   { intros modname. unfold import_part. destruct (eval_cond _ _ _ _ _); [|reflexivity]. destruct modname; reflexivity. }
-  destruct (vload_effects fR E v) as [->|(modname & clsname & H)]; [cbn; lia|]. cbv zeta in H.
-  destruct H as [->|[(c' & ok & _ & ->)| ->]]; rewrite ?filter_app, HP; cbn; lia.
+  assert (HQ : forall l, filter (fun x => match x with ENew _ => true | _ => false end) (map EImport l) = []).
+  { induction l; [reflexivity|exact IHl]. }
+  destruct (vload_effects M fR E v) as [->|(modname & clsname & hook & tail & -> & HH & HT)]; [cbn; lia|].
+  rewrite !filter_app, HP, HQ. destruct HT; cbn; lia.
 Qed.
 
 (* ---- 4. the StopIteration fast path, both directions ---- *)
@@ -362,18 +481,21 @@ Proof.
   destruct (do_sets items) as [s [u|x| |]]; discriminate.
 Qed.
 
-Theorem fastpath_load fR E v : snd (vload fR E v) = Ok LStop <-> py_eq_one v = true.
+Lemma generic_not_stop E eff m n a t b : snd (generic_or_fail E eff m n a t b) <> Ok LStop.
+Proof. unfold generic_or_fail. destruct (generic_name_check m n); try discriminate. apply build_not_stop. Qed.
+
+Theorem fastpath_load M fR E v : snd (vload M fR E v) = Ok LStop <-> py_eq_one v = true.
 Proof.
   unfold vload. destruct (py_eq_one v); [easy|]. split; [|discriminate]. intros H. exfalso. revert H.
   destruct v; try discriminate;
   (destruct (unpack 4 _) as [[|key [|args [|attrs [|tb [|? ?]]]]]| | |]; try discriminate;
    destruct (unpack 2 key) as [[|modname [|clsname [|? ?]]]| | |]; try discriminate; cbv zeta;
-   destruct (run_prog _ _ _ _ _ _) as [[[c ok|]|]| | |]; try discriminate;
-   try (destruct (generic_name_check modname clsname); try discriminate); apply build_not_stop).
+   destruct (run_prog _ _ _ _ _ _ _) as [[[c ok| |imps [[c ok]|]]|]| | |]; try discriminate;
+   first [apply build_not_stop|apply generic_not_stop]).
 Qed.
 
-Theorem fastpath_roundtrip P fS fR E ver tb e : fast_taken P e = true ->
-  vload fR E (vdump P fS ver tb e) = ([], Ok LStop).
+Theorem fastpath_roundtrip M P fS fR E ver tb e : fast_taken P e = true ->
+  vload M fR E (vdump P fS ver tb e) = ([], Ok LStop).
 Proof. intros H. unfold vdump. now rewrite H. Qed.
 
 (* ---- 5. disclosure: what the sender's two switches deny never reaches the wire ---- *)
